@@ -6800,6 +6800,14 @@ impl RelationalEngine {
 
         let row_id = slab_row_id.as_u64() + 1;
 
+        // Lock the new row for this transaction: until it commits or rolls back no other
+        // transaction may update or delete the uncommitted row. The row id is fresh, so the
+        // lock cannot conflict.
+        let _ = self
+            .tx_manager
+            .lock_manager()
+            .try_lock(tx_id, &[(table.to_string(), row_id)]);
+
         // Update row counter
         self.row_counters
             .entry(table.to_string())
